@@ -21,7 +21,7 @@ TIERS = {
 RULE = ('case = (reference lines, actual = reference with 0-3 near-miss edits: number/char/word/whitespace edit, '
         'insert, delete, swap, trailing empty line, removable line) x one of the 128 subsets of {lstrip, rstrip, '
         'ignore_substrings, ignore_patterns, remove_lines, preprocess, max_permutation_cases} (the first 128 cases of '
-        'shard 0 enumerate the subsets) x entry point {check_strings, string-vs-file, file-vs-file, list-of-files} x '
+        'shard 0 enumerate the subsets) x entry point {check_strings, string-vs-file (actual as string, list or tuple of lines), file-vs-file, list-of-files} x '
         'line-ending flavour. Non-trivial = actual differs from reference or an option is in force.')
 ASSUMPTIONS = [
     'lines = str.splitlines(); one trailing empty element is outside the comparison (verdicts hinging on it are unspecified)',
